@@ -21,8 +21,8 @@ def setup(D, pid, algos=W.ALGOS, fails=('none', 'light', 'heavy'), fail_weights=
     ctx = core.Ctx(pid, D, sim)
     w = W.World(D, sim, fail=fail, precision=precision, box=box, n=n, m=m, ncons=ncons, quantised=quantised,
                 with_tol=with_tol, name=pid.lower())
-    N = min_N + D.dec('cfg', 'N', max_N - min_N + 1)
-    G = 1 + D.dec('cfg', 'G', max_G)
+    N = min_N + D.size('cfg', 'N', max_N - min_N + 1)
+    G = 1 + D.size('cfg', 'G', max_G)
     workers = 1 + D.weighted('cfg', 'rworkers', workers_weights)
     path = None
     if store:
